@@ -3,7 +3,7 @@
 From Coq Require Import List NArith ZArith Bool.
 From Coq Require Import String.
 Import ListNotations.
-From GP Require Import Generated Model.Handshake Model.Stderr Model.Env Model.MuxBroker Model.GrpcMux Model.Serve Model.Kill Model.Tls.
+From GP Require Import Generated Model.Handshake Model.Stderr Model.Env Model.MuxBroker Model.GrpcMux Model.Serve Model.Kill Model.Tls Model.Resources.
 
 Definition gen_hs_params : hs_params :=
   {| hp_core := core_protocol_version;
@@ -67,3 +67,13 @@ Definition gen_tls_params : Tls.tparams :=
      Tls.tp_plugin_requires_client := tls_plugin_requires_client;
      Tls.tp_plugin_pins_client_cas := tls_plugin_pins_client_cas;
      Tls.tp_broker_serves_with_tls := tls_broker_serves_with_tls |}.
+
+Definition gen_res_params : Resources.rparams :=
+  {| Resources.rp_serve_defers_close := res_serve_defers_listener_close;
+     Resources.rp_muxer_closes_wrapped := res_muxer_closes_wrapped_listener;
+     Resources.rp_accept_serve_closes := res_accept_and_serve_closes_listener;
+     Resources.rp_kill_removes_dir := res_kill_removes_socket_dir;
+     Resources.rp_broker_run_nonblocking :=
+       match sel_lookup select_table "grpc_run"%string 0 with Some x => sel_default x | None => false end;
+     (* nothing in the code orders the plugin's exit after its AcceptAndServe goroutines have closed their listeners *)
+     Resources.rp_stop_waits_for_brokered := false |}.
